@@ -71,13 +71,33 @@ func VP_C09_RestoreStaged() {
 			vpOK(zzvp.Run("rm", f.path))
 		}
 	}
-	if zzvp.Choose(2) == 1 {
+	switch zzvp.Choose(3) {
+	case 1:
 		np := vpPath("nw", depth, maxc)
 		for _, f := range files {
 			zzvp.Assume(np != f.path && !vpHasDirPrefix(np, f.path) && !vpHasDirPrefix(f.path, np))
 		}
 		zzvp.WriteFile(w+"/"+np, []byte("N"))
 		vpOK(zzvp.Run("add", np))
+	case 2:
+		// a committed directory replaced by a file of the same name (only if the first file lives in a directory)
+		dir := ""
+		for i := 0; i < len(files[0].path); i++ {
+			if files[0].path[i] == '/' {
+				dir = files[0].path[:i]
+				break
+			}
+		}
+		zzvp.Assume(dir != "")
+		for _, f := range files[1:] {
+			zzvp.Assume(!vpHasDirPrefix(f.path, dir))
+		}
+		if zzvp.Exists(w + "/" + files[0].path) {
+			vpOK(zzvp.Run("rm", files[0].path))
+		}
+		zzvp.RemoveAll(w + "/" + dir)
+		zzvp.WriteFile(w+"/"+dir, []byte("F"))
+		vpOK(zzvp.Run("add", dir))
 	}
 	arg := vpArg("arg", depth, maxc)
 	idxBefore, _ := vpReadIndex()
